@@ -10,7 +10,7 @@ Proof.
 Qed.
 
 Lemma Rr_build r1 l lim a' t' l' :
-  Rr r1 l lim -> len a' = cap r1 -> 0 <= t' <= cap r1 -> len l' = t' ->
+  Rr r1 l lim -> len a' = cap r1 -> 0 <= t' <= limit r1 -> len l' = t' ->
   (forall i, 0 <= i < t' -> rd a' i = rd l' i) ->
   Rr (with_arr_top r1 a' t') l' lim.
 Proof.
@@ -33,28 +33,29 @@ Qed.
 Lemma checkSize_over r l lim req : Rr r l lim -> lim < req -> checkSize r req = Overflow.
 Proof.
   intros [Ht Hc Hlc Hl Hlim Hg] H. unfold checkSize, resize.
-  destruct (req >? cap r) eqn:E; [|lia].
+  destruct (req >? limit r) eqn:E; [|lia].
   destruct (req + growBy r >? maxSize r) eqn:E2.
   - destruct (maxSize r <? req) eqn:E3; [reflexivity|lia].
   - destruct (req + growBy r <? req) eqn:E3; [reflexivity|lia].
 Qed.
 
 Lemma checkSize_ok r l lim req : Rr r l lim -> req <= lim ->
-  exists r1, checkSize r req = Ok r1 /\ Rr r1 l lim /\ req <= cap r1 /\ top r1 = top r /\
+  exists r1, checkSize r req = Ok r1 /\ Rr r1 l lim /\ req <= limit r1 /\ top r1 = top r /\
              growBy r1 = growBy r /\ maxSize r1 = maxSize r.
 Proof.
   intros HR H. pose proof HR as [Ht Hc Hlc Hl Hlim Hg]. unfold checkSize, resize.
   pose proof (len_nonneg l) as Hl0.
-  destruct (req >? cap r) eqn:E.
+  destruct (req >? limit r) eqn:E.
   2:{ exists r. repeat split; auto; lia. }
   set (ns := if req + growBy r >? maxSize r then maxSize r else req + growBy r).
   assert (Hns : req <= ns /\ ns <= maxSize r) by (unfold ns; destruct (req + growBy r >? maxSize r) eqn:E2; lia).
   destruct (ns <? req) eqn:E3; [lia|].
-  exists (forceResize r ns).
+  exists (with_limit (forceResize r ns) ns).
   assert (Hlen : len (arr (forceResize r ns)) = ns).
   { unfold forceResize; simpl. rewrite len_firstn, len_app, len_firstn, len_fresh. unfold cap in *. lia. }
-  assert (HR' : Rr (forceResize r ns) l lim).
-  { constructor; simpl; unfold cap in *; try lia.
+  assert (HR' : Rr (with_limit (forceResize r ns) ns) l lim).
+  { constructor; simpl; unfold cap in *; simpl; try lia.
+    { rewrite len_firstn, len_app, len_firstn, len_fresh. lia. }
     rewrite <- Hl. unfold live, forceResize; simpl. apply list_eq_rd.
     + rewrite !len_firstn, len_app, len_firstn, len_fresh. lia.
     + intros i Hi. rewrite !len_firstn, len_app, len_firstn, len_fresh in Hi.
@@ -62,7 +63,7 @@ Proof.
       destruct (i <? ns) eqn:E5; [|lia]. rewrite rd_app by lia. rewrite len_firstn.
       destruct (i <? Z.min (Z.max 0 (top r)) (len (arr r))) eqn:E6; [|lia].
       rewrite rd_firstn. rewrite E4. reflexivity. }
-  split; [reflexivity|]. split; [exact HR'|]. unfold cap. repeat split; auto; lia.
+  split; [reflexivity|]. split; [exact HR'|]. simpl. repeat split; auto; lia.
 Qed.
 
 (* ---------- single operations, on the live list ---------- *)
@@ -249,15 +250,15 @@ Proof.
     all: try (rewrite rd_out by lia; symmetry; apply rd_out; lia).
 Qed.
 
-Lemma Set_nogrow r regi v : 0 <= regi -> regi + 1 <= cap r ->
+Lemma Set_nogrow r regi v : 0 <= regi -> regi + 1 <= limit r ->
   Set_ r regi v = Ok (with_arr_top r (upd (arr r) regi v) (if regi >=? top r then regi + 1 else top r)).
 Proof.
   intros. unfold Set_, checkSize. destruct (regi <? 0) eqn:E; [lia|].
-  destruct (regi + 1 >? cap r) eqn:E2; [lia|]. reflexivity.
+  destruct (regi + 1 >? limit r) eqn:E2; [lia|]. reflexivity.
 Qed.
 
 Lemma insertLoop_nogrow : forall k r t,
-  0 <= t + 1 - Z.of_nat k -> t + 1 < cap r -> t + 1 <= top r ->
+  0 <= t + 1 - Z.of_nat k -> t + 1 < limit r -> t + 1 <= top r ->
   insertLoop r t k = Ok (with_arr_top r (shiftUp (arr r) t k) (if (k =? 0)%nat then top r else Z.max (top r) (t + 2))).
 Proof.
   induction k as [|k IH]; intros r t Hk Hc Ht; simpl insertLoop.
@@ -292,23 +293,25 @@ Proof.
                  (if top r - 1 + 1 >=? top r1 then top r - 1 + 1 + 1 else top r1)).
     assert (Htop2 : top r2 = top r + 1) by (unfold r2; simpl; destruct (top r - 1 + 1 >=? top r1) eqn:E4; lia).
     assert (Hcap2 : cap r2 = cap r1) by (unfold r2, cap; simpl; apply len_upd).
+    assert (Hlim2 : limit r2 = limit r1) by reflexivity.
+    unfold cap in Hcap2.
     rewrite insertLoop_nogrow; try lia.
     cbn [bind].
     assert (HT : (if (Z.to_nat (top r - reg - 1) =? 0)%nat then top r2 else Z.max (top r2) (top r - 1 - 1 + 2)) = top r + 1).
     { destruct (Z.to_nat (top r - reg - 1) =? 0)%nat; lia. }
     rewrite HT.
-    rewrite Set_nogrow; [|lia|unfold cap; cbn [arr with_arr_top]; rewrite shiftUp_len; change (len (arr r2)) with (cap r2); lia].
+    rewrite Set_nogrow; [|lia|cbn [limit with_arr_top]; lia].
     cbn [top arr with_arr_top].
     destruct (reg >=? top r + 1) eqn:E5; [lia|].
     eexists. split; [reflexivity|].
     change (Rr (with_arr_top r1 (upd (shiftUp (arr r2) (top r - 1 - 1) (Z.to_nat (top r - reg - 1))) reg v) (top r + 1)) (insertL l v reg) lim).
     apply (Rr_build _ l); auto.
-    + rewrite len_upd, shiftUp_len. exact Hcap2.
+    + rewrite len_upd, shiftUp_len. unfold cap. exact Hcap2.
     + lia.
     + unfold insertL. rdsimp. lia.
     + intros i Hi'. rewrite Ht0 in Hi'.
       unfold insertL. rewrite rd_upd, shiftUp_len.
-      rewrite shiftUp_rd by (change (len (arr r2)) with (cap r2); lia).
+      unfold cap in *. rewrite shiftUp_rd by lia.
       unfold r2; cbn [arr with_arr_top]. rewrite !rd_upd. rewrite rd_app by lia. rdsimp.
       rewrite (Rr_rd _ _ _ (top r - 1) HR) by lia.
       unfold cap in *.
@@ -332,27 +335,50 @@ Proof.
               all: try (f_equal; lia).
 Qed.
 
+Lemma Rr_Rr1 r l lim : Rr r l lim -> Rr1 r l lim.
+Proof. intros [? ? ? ? ? ?]. constructor; auto; lia. Qed.
+
+(* raiseError's push: always possible; the array may get one cell longer, the limit stays *)
 Lemma raisePush_ok r l lim v : Rr r l lim ->
-  exists r', raisePush r v = Ok r' /\ Rr r' (l ++ [v]) (Z.max lim (len l + 1)).
+  exists r', raisePush r v = Ok r' /\ Rr1 r' (l ++ [v]) lim.
 Proof.
-  intros HR. pose proof (len_nonneg l). pose proof HR as [Ht0 Hc0 Hlc0 Hl0 Hlim0 Hg0]. unfold raisePush, IsFull.
-  destruct (top r >=? cap r) eqn:E.
-  - (* full: one more slot is forced *)
-    assert (HR2 : Rr (forceResize r (top r + 1)) l (Z.max lim (len l + 1))).
-    { assert (Hlen : len (arr (forceResize r (top r + 1))) = top r + 1).
-      { unfold forceResize; simpl. rewrite len_firstn, len_app, len_firstn, len_fresh. unfold cap in *. lia. }
-      constructor; simpl; unfold cap in *; try lia.
-      rewrite <- Hl0. unfold live, forceResize; simpl. apply list_eq_rd.
-      - rewrite !len_firstn, len_app, len_firstn, len_fresh. lia.
-      - intros i Hi. rewrite !len_firstn, len_app, len_firstn, len_fresh in Hi.
-        rewrite !rd_firstn. destruct (i <? top r) eqn:E4; [|lia].
-        destruct (i <? top r + 1) eqn:E5; [|lia]. rewrite rd_app by lia. rewrite len_firstn.
-        destruct (i <? Z.min (Z.max 0 (top r)) (len (arr r))) eqn:E6; [|lia].
-        rewrite rd_firstn. rewrite E4. reflexivity. }
-    apply Push_ok; [exact HR2|lia].
-  - destruct (Push_ok r l lim v HR) as (r' & Hp & HR'); [lia|].
-    exists r'. split; [exact Hp|].
-    replace (Z.max lim (len l + 1)) with lim by lia. exact HR'.
+  intros HR. pose proof (len_nonneg l). pose proof HR as [Ht0 Hc0 Hlc0 Hl0 Hlim0 Hg0].
+  unfold raisePush, IsFull, pushRaw, cap in *.
+  set (r1 := if top r >=? len (arr r) then forceResize r (top r + 1) else r).
+  assert (H1 : top r1 = top r /\ limit r1 = limit r /\ maxSize r1 = maxSize r /\ growBy r1 = growBy r /\
+               top r < len (arr r1) /\ limit r <= len (arr r1) /\
+               forall i, 0 <= i < top r -> rd (arr r1) i = rd l i).
+  { unfold r1. destruct (top r >=? len (arr r)) eqn:E.
+    - unfold forceResize; simpl. rewrite len_firstn, len_app, len_firstn, len_fresh.
+      repeat split; try lia. intros i Hi. rewrite <- Hl0. unfold live.
+      rewrite !rd_firstn. rewrite rd_app by lia. rewrite len_firstn. rewrite rd_firstn.
+      cases_if; try lia; reflexivity.
+    - repeat split; try lia. intros i Hi. apply (Rr_rd r l lim i HR). lia. }
+  destruct H1 as (Q1 & Q2 & Q3 & Q4 & Q5 & Q6 & Q7).
+  destruct ((top r1 <? 0) || (top r1 >=? len (arr r1))) eqn:E; [lia|].
+  eexists. split; [reflexivity|].
+  assert (Hl1 : len (l ++ [v]) = len l + 1) by (rewrite len_app, len_cons; unfold len at 2; simpl; lia).
+  constructor; simpl; unfold cap; simpl; rewrite ?len_upd, ?Hl1; try lia.
+  - unfold live; simpl. apply list_eq_rd.
+    + rewrite len_firstn, len_upd, Hl1. lia.
+    + intros i Hi. rewrite len_firstn, len_upd in Hi. rewrite rd_firstn, rd_upd, rd_app by lia.
+      rewrite rd_single. destruct (Z.eq_dec i (top r)).
+      * cases_if; try lia; reflexivity.
+      * rewrite Q7 by lia. cases_if; try lia; reflexivity.
+Qed.
+
+(* after the error has been caught: the registry is cut back to a top within the limit *)
+Lemma SetTop_down1 r l lim t : Rr1 r l lim -> 0 <= t <= len l -> t <= limit r ->
+  exists r', SetTop r t = Ok r' /\ Rr r' (firstn (Z.to_nat t) l) lim.
+Proof.
+  intros [Ht Hc Htl Hlc Hl Hlim Hg] Ht0 Htlim. unfold SetTop, checkSize.
+  destruct (t <? 0) eqn:E; [lia|]. destruct (t >? limit r) eqn:E2; [lia|]. cbn [bind].
+  eexists. split; [reflexivity|].
+  constructor; simpl; unfold cap in *; simpl; rewrite ?len_fill, ?len_firstn; try lia.
+  unfold live; simpl. apply list_eq_rd.
+  - rewrite !len_firstn, !len_fill. lia.
+  - intros i Hi. rewrite len_firstn, !len_fill in Hi. rewrite <- Hl. unfold live.
+    rewrite !rd_firstn, !rd_fill, !len_fill. cases_if; try lia; reflexivity.
 Qed.
 
 (* ---------- one step of the operation language ---------- *)
@@ -360,8 +386,7 @@ Qed.
 Lemma rstep_sim r l lim o :
   Rr r l lim -> rop_dom (len l) o = true ->
   if rneed (len l) o >? lim then rstep r o = Overflow
-  else exists r', rstep r o = Ok (r', snd (lstepR l o)) /\
-                  Rr r' (fst (lstepR l o)) (match o with RRaisePush => Z.max lim (len l + 1) | _ => lim end).
+  else exists r', rstep r o = Ok (r', snd (lstepR l o)) /\ Rr r' (fst (lstepR l o)) lim.
 Proof.
   intros HR Hd. pose proof (len_nonneg l). pose proof HR as [Ht0 Hc0 Hlc0 Hl0 Hlim0 Hg0].
   destruct o as [v| |reg|reg v|t|regv start limit n|regm n|v reg| |dst src]; cbn [rneed rstep lstepR fst snd rop_dom] in *.
@@ -393,8 +418,7 @@ Proof.
         rewrite Hk. cbn [insertLoop]. unfold Set_ at 1. destruct (top r - 1 + 1 <? 0) eqn:E4; [lia|].
         rewrite (checkSize_over r l lim) by (auto; lia). reflexivity.
     + destruct (Insert_ok r l lim (Some v) reg HR) as (r' & Hp & HR'); try lia. rewrite Hp. cbn [bind fst snd]. eauto.
-  - destruct (0 >? lim) eqn:E; [lia|].
-    destruct (raisePush_ok r l lim (Some VMsg) HR) as (r' & Hp & HR'). rewrite Hp. cbn [bind fst snd]. eauto.
+  - discriminate.
   - destruct (dst + 1 >? lim) eqn:E.
     + rewrite (Get_ok r l lim src HR) by lia. cbn [bind].
       unfold Set_. destruct (dst <? 0) eqn:E2; [lia|]. rewrite (checkSize_over r l lim) by (auto; lia). reflexivity.
@@ -423,7 +447,7 @@ Qed.
 Lemma registry_grow_transparent_lemma : forall r l lim o,
   Rr r l lim -> rop_dom (len l) o = true -> rneed (len l) o <= lim ->
   exists r', rstep r o = Ok (r', snd (lstepR l o)) /\
-             Rr r' (fst (lstepR l o)) (match o with RRaisePush => Z.max lim (len l + 1) | _ => lim end).
+             Rr r' (fst (lstepR l o)) lim.
 Proof.
   intros r l lim o HR Hd Hn. pose proof (rstep_sim r l lim o HR Hd) as H.
   destruct (rneed (len l) o >? lim) eqn:E; [lia|exact H].
@@ -438,5 +462,5 @@ Proof.
 Qed.
 
 Lemma raise_has_room_lemma : forall r l lim v,
-  Rr r l lim -> exists r', raisePush r v = Ok r' /\ Rr r' (l ++ [v]) (Z.max lim (len l + 1)).
+  Rr r l lim -> exists r', raisePush r v = Ok r' /\ Rr1 r' (l ++ [v]) lim.
 Proof. intros r l lim v H. exact (raisePush_ok r l lim v H). Qed.
